@@ -33,6 +33,7 @@ type job struct {
 	light string
 	sgIdx int
 	sg    subgoal
+	alts  []job // alternative way to discharge this subgoal (all must be unsat)
 }
 
 func hasTag(tags []string, p string) bool {
@@ -132,7 +133,7 @@ func run(repo, verif, prop, tier, only, dump string, list, verbose bool, timeout
 			}
 			if o.IsCover {
 				q := ex.buildQuery(o, subgoal{nil, False}, "", nil)
-				jobs = append(jobs, job{r, q, "", 0, subgoal{nil, False}})
+				jobs = append(jobs, job{res: r, query: q, sg: subgoal{nil, False}})
 				r.Subgoals = 1
 				continue
 			}
@@ -147,7 +148,11 @@ func run(repo, verif, prop, tier, only, dump string, list, verbose bool, timeout
 			for i, sg := range sgs {
 				q := ex.buildQuery(o, sg, "", ex.inputTerms())
 				lq := ex.buildQueryMode(o, sg, "", nil, true)
-				jobs = append(jobs, job{r, q, lq, i, sg})
+				j := job{res: r, query: q, light: lq, sgIdx: i, sg: sg}
+				for _, asg := range ex.altGoals(sg) {
+					j.alts = append(j.alts, job{res: r, query: ex.buildQuery(o, asg, "", nil), light: ex.buildQueryMode(o, asg, "", nil, true), sgIdx: i, sg: asg})
+				}
+				jobs = append(jobs, j)
 			}
 		}
 	}
@@ -206,6 +211,28 @@ func run(repo, verif, prop, tier, only, dump string, list, verbose bool, timeout
 			}
 			if sr.Status != "unsat" {
 				sr = Solve(j.query, to, tier == "thorough" && !j.res.O.IsCover)
+			}
+			if sr.Status != "unsat" && len(j.alts) > 0 {
+				// prove the content equality from its definition instead
+				allOK := true
+				var last SolverResult
+				for _, a := range j.alts {
+					ar := Solve(a.light, 4, false)
+					if ar.Status != "unsat" {
+						ar = Solve(a.query, to, false)
+					}
+					last = ar
+					if ar.Status != "unsat" {
+						allOK = false
+						break
+					}
+				}
+				if allOK {
+					sr = last
+					sr.Solver += "(bytes)"
+				} else if last.Status == "sat" {
+					sr = last
+				}
 			}
 			mu.Lock()
 			defer mu.Unlock()
@@ -313,17 +340,18 @@ func report(V *Verifier, verif, repo, prop, tier string, start time.Time, result
 	samples := []interface{}{}
 	perObl := []map[string]interface{}{}
 	backends := map[string]int{}
+	coverByFn := map[string][]*oblResult{}
 	sort.SliceStable(results, func(i, j int) bool { return results[i].O.Name < results[j].O.Name })
 	for _, r := range results {
 		entry := map[string]interface{}{"name": r.O.Name, "kind": r.O.Kind, "pos": r.O.Pos, "result": r.Status, "backend": r.Backend, "ms": r.Ms, "subgoals": r.Subgoals}
 		if r.O.IsCover {
+			// a return that is unreachable under the precondition is dead
+			// (defensive) code; a function none of whose returns is reachable
+			// has a contradictory contract (checked after the loop)
 			nCover++
+			coverByFn[r.O.Func] = append(coverByFn[r.O.Func], r)
 			if r.Status == "cover-ok" {
 				nCoverOK++
-			} else {
-				violations++
-				path := writeReplay(verif, prop, r, "vacuous: the hypotheses at this return are contradictory")
-				fmt.Printf("VIOLATION property=%s replay=%s no-failing-input-found\n", prop, path)
 			}
 			perObl = append(perObl, entry)
 			continue
@@ -356,6 +384,19 @@ func report(V *Verifier, verif, repo, prop, tier string, start time.Time, result
 		perObl = append(perObl, entry)
 		if verbose {
 			fmt.Fprintf(os.Stderr, "%-12s %-60s %s %dms %s\n", r.Status, r.O.Name, r.Backend, r.Ms, truncate(r.Detail, 200))
+		}
+	}
+	for fnName, cs := range coverByFn {
+		anyOK := false
+		for _, c := range cs {
+			if c.Status == "cover-ok" {
+				anyOK = true
+			}
+		}
+		if !anyOK {
+			violations++
+			path := writeReplay(verif, prop, cs[0], "vacuous: no return of "+fnName+" is reachable under its precondition (contradictory contract)")
+			fmt.Printf("VIOLATION property=%s replay=%s no-failing-input-found\n", prop, path)
 		}
 	}
 	for _, e := range engineErrors {
